@@ -14,7 +14,7 @@ import time
 
 from . import VERIF, REPO
 from .pool import run_units, run_one
-from .tape import Tape, shrink
+from .tape import Tape, shrink, shrink_tree, tape_size
 
 PY = sys.executable
 
@@ -105,7 +105,7 @@ class Batch:
         res = self.engine.run(tape, kind)
         res['id'] = (kind, idx)
         res['digest'] = digest_of(res.pop('events'))
-        res['tape'] = list(tape.values)
+        res['tape'] = tape.dump() if tape.children else list(tape.values)
         return res
 
     def exec_unit(self, unit):
@@ -256,7 +256,7 @@ def run_check(engine, tier='quick', seed=0, workers=None, digest_only=None, scal
         import tempfile
         replay_dir = tempfile.mkdtemp(prefix='simstone-replays-')
     os.makedirs(replay_dir, exist_ok=True)
-    budget_each = 40 if tier == 'quick' else 90
+    budget_each = 60 if tier == 'quick' else 180
     for n_done, (r, v) in enumerate(new_viol):
         kind, idx = r['id']
         tape_vals = r['tape']
@@ -271,8 +271,12 @@ def run_check(engine, tier='quick', seed=0, workers=None, digest_only=None, scal
         minimised, calls = tape_vals, 0
         if n_done < 6 and not os.environ.get('SIMSTONE_NO_SHRINK'):
             if still(tape_vals):
-                minimised, calls = shrink(tape_vals, still, budget=150,
-                                          deadline=time.monotonic() + budget_each)
+                if isinstance(tape_vals, dict):
+                    minimised, calls = shrink_tree(tape_vals, still, budget=200,
+                                                   deadline=time.monotonic() + budget_each)
+                else:
+                    minimised, calls = shrink(tape_vals, still, budget=150,
+                                              deadline=time.monotonic() + budget_each)
             else:
                 harness_errors.append('violation %r of run %r did not reproduce from its own tape'
                                       % ((v['class'], v['key']), r['id']))
@@ -287,7 +291,8 @@ def run_check(engine, tier='quick', seed=0, workers=None, digest_only=None, scal
             json.dump({
                 'format': 1, 'property': engine.property_id, 'engine': engine.name,
                 'kind': kind, 'seed': seed, 'run': idx, 'tier': tier,
-                'tape': minimised, 'original_tape_len': len(tape_vals), 'shrink_calls': calls,
+                'tape': minimised, 'original_tape_len': tape_size(tape_vals), 'minimised_tape_len': tape_size(minimised),
+                'shrink_calls': calls,
                 'violation': fv, 'ops': final.get('trace', []),
                 'artefacts': final.get('artefacts', {}), 'digest': final.get('digest'),
                 'stone_rev': _stone_rev(),
